@@ -387,7 +387,7 @@ func drawCase(t *rapid.T) Case {
 // opLabel names the operation class for labels and signatures.
 func (o Op) label() string {
 	switch o.Kind {
-	case "createIndex", "dropIndex", "addSchema", "patchSchema", "setActive", "import", "merge", "upsert":
+	case "createIndex", "dropIndex", "addSchema", "patchSchema", "setActive", "import", "merge", "upsert", "txn":
 		return o.Kind
 	}
 	return o.Kind + "-" + o.Route
